@@ -49,7 +49,7 @@ def main():
         base_ok, demo_failed, compiled = True, False, 'error' not in out2.split('\n')[0]
         for b in blocks:
             if 'seed_demo' in b.split('\n')[0]:
-                demo_failed = 'FAILED' in b
+                demo_failed = 'FAILED' in b or 'error: test failed' in b      # (an abort -- stack overflow, SIGABRT -- prints no FAILED line)
             elif 'test result' in b and 'FAILED' in b:
                 base_ok = False
         if re.search(r'^error', out2, re.M) and not demo_failed:
